@@ -8,18 +8,33 @@ LEVEL = "other"
 def jobs(tier, seed):
     n = len(SR.cases())
     step = 12
-    return [{"id": f"C11/F/static-rules[{lo}:{min(n, lo + step)}]", "fn": "vverif.contracts.static_rules:job_rules", "args": (lo, lo + step), "functions": SR.FUNCS, "engine": "FinEx"}
-            for lo in range(0, n, step)]
+    J = [{"id": f"C11/F/static-rules[{lo}:{min(n, lo + step)}]", "fn": "vverif.contracts.static_rules:job_rules", "args": (lo, lo + step), "functions": SR.FUNCS, "engine": "FinEx"}
+         for lo in range(0, n, step)]
+    # run-time side of the loop-bound promise: bytecode vs the reference semantics, all start/end/count words
+    from vverif.contracts import source_sem as S
+
+    cfgs = ["L-gas", "V-O2"] if tier == "quick" else ["L-gas", "L-none", "L-codesize", "V-O2", "V-none", "V-O3", "V-Os"]
+    for tid, src in SR.loop_family().items():
+        for cfg in cfgs:
+            J.append({"id": f"C11/G/loop-bound[{tid};{cfg}]", "fn": "vverif.contracts.source_sem:job_src", "args": ("c11." + tid, src, cfg),
+                      "functions": S.FUNCS + ["vyper.codegen.stmt:Stmt._parse_For_range", "vyper.codegen_venom.stmt:Stmt._lower_range_loop"], "engine": "GenVC"})
+    return J
 
 
 def replay(o):
     k = (o.get("replay") or {}).get("kind")
     if k in SR.REPLAY:
         return SR.REPLAY[k](o)
+    from vverif.contracts import source_sem as S
+
+    if k in S.REPLAY:
+        return S.REPLAY[k](o)
     return {"reproduced": None, "detail": "no native replay"}
 
 
 def finding_key(o):
+    if "/G/" in o["job"]:
+        return o["job"] + "/" + o["clause"].split("#")[0].split("[")[0]
     return "C11/F/" + o["clause"].split("#")[0]
 
 
